@@ -620,6 +620,10 @@ func (ab *rulesPair) adaptGroups(lb []string) {
 			} else {
 				// Name may have been changed before, to prevent name clashes.
 				lb[i] = gb.Name
+				// Group will be transferred and is referenced by its
+				// name now. It must no longer be equalized with some
+				// other group on device.
+				gb.nameOnDevice = gb.Name
 			}
 		}
 	}
